@@ -67,7 +67,9 @@ def gen_layer(rng: random.Random, size, bs, ss, has_parent, tier, seed):
             "active_header": rng.choice([1, 2]), "seqs": sorted(rng.sample(range(1, 1000), 2)),
             "unknown_meta": rng.random() < 0.3, "extra_bat": rng.choice([0, 0, 3]),
             "locator": rng.choice(["relative", "relative", "absolute", "both"]),
-            "sb_slot_garbage": (not has_parent) and rng.random() < 0.3}
+            "sb_slot_garbage": (not has_parent) and rng.random() < 0.3,
+            # trimmed blocks keep the file offset of their old allocation, right behind the preceding present block
+            "stale_adjacent": rng.random() < 0.5}
 
 
 def gen_recipe(rng: random.Random, tier="quick", depth=None, big=False):
@@ -176,8 +178,9 @@ def build_layer(l, parent_name=None, name="x.vhdx", absdir=None):
     bat = [0] * nent_written
     loc = {}
     end = data0
-    nphys = max(l["phys"].values(), default=-1) + 1
+    nphys = max(l["phys"].values(), default=-1) + 2          # one spare slot for a stale allocation behind the last block
     bm_base = data0 + nphys * bs
+    used_slots = set(l["phys"].values())
     for b, st in enumerate(l["blocks"]):
         idx = b + b // ratio
         if st in (6, 7):
@@ -197,6 +200,14 @@ def build_layer(l, parent_name=None, name="x.vhdx", absdir=None):
             end = max(end, off + bs)
         else:
             bat[idx] = st | ((((b * 7 + 3) % 50) << 20) if st in (1, 2, 3) and b % 2 else 0)
+            if l.get("stale_adjacent") and bs <= 8 * MB and b > 0 and l["blocks"][b - 1] in (6, 7) and (st in (1, 2, 3) or (st == 0 and not l["has_parent"])):
+                slot = l["phys"][str(b - 1)] + 1
+                if slot not in used_slots:
+                    used_slots.add(slot)
+                    soff = data0 + slot * bs
+                    im.put_pat(soff, bs, (l["seed"] + 101 + b) & 0xFF)          # stale bytes of the old allocation
+                    bat[idx] = st | ((soff // MB) << 20)
+                    end = max(end, soff + bs)
     sb_loc = {}
     if l["has_parent"]:
         for c in range(nsb):
